@@ -50,7 +50,7 @@ def toks(s):
     return str(s).split("_")
 
 
-def event(rows, ids, cid, variant, seed):
+def event(rows, ids, cid, variant, seed, big=False):
     """rows: [[g1 tokens, g2 tokens, label, score]]"""
     import pandas as pd
     from score_analysis import BootstrapConfig, showbias
@@ -66,6 +66,8 @@ def event(rows, ids, cid, variant, seed):
     pos_label = [1, 1, 0][(cid + v) % 3]
     t2 = [[1], [0, 1, 2], [2, 3], [-1, 1, 4]][(cid + v) % 4]
     scalar_thr = len(t2) == 1 and cid % 2 == 0
+    if big:
+        metric, normalize, boot = ["fnr", "fpr", "tpr", "tnr"][(cid + v) % 4], "none", "builtin"
     e = {"id": next(ids), "cid": cid, "op": "showbias", "exc": "", "rows": rows, "ncols": ncols,
          "cols_as_list": as_list, "metric": metric, "t2": t2, "normalize": normalize, "boot": boot,
          "method": method, "sc": sc, "ec": ec, "pos_label": pos_label,
@@ -74,6 +76,8 @@ def event(rows, ids, cid, variant, seed):
     # ulp off a float32 score, i.e. not representable in the column's dtype)
     sdtype = ["float64", "int64", "float32"][(cid + v // 2) % 3]
     e["sdtype"] = sdtype
+    if big:
+        e["big"] = True
     if sdtype == "int64":
         gg = gamma.ident()
         scores = np.array([int(r[3]) for r in rows], dtype=np.int64)
@@ -88,8 +92,20 @@ def event(rows, ids, cid, variant, seed):
     df = pd.DataFrame({"g1": ["_".join(r[0]) for r in rows], "g2": ["_".join(r[1]) for r in rows],
                        "lab": [r[2] for r in rows], "score": scores})
     cols = (["g1", "g2"] if ncols == 2 else ["g1"]) if as_list else "g1"
+    # the frame's row labels: default 0..n-1, the same rows in another order (labels travel with the
+    # rows), or arbitrary labels
+    idx_mode = (cid + v // 3) % 3
+    e["row_index"] = ["default", "permuted", "strings"][idx_mode]
+    if idx_mode == 1 and len(df) > 1:
+        df = df.iloc[np.random.RandomState(cid + v).permutation(len(df))[::-1]]
+    elif idx_mode == 2:
+        df.index = [f"row{(7 * i + 3) % (len(df) + 2)}" for i in range(len(df))][::-1]
     kw = {}
-    if boot != "none":
+    if big:
+        kw["bootstrap_ci"] = True                            # default sampling method ('dynamic')
+        kw["bootstrap_config"] = BootstrapConfig(nb_samples=40, bootstrap_method=method,
+                                                 stratified_sampling=[None, "by_label"][cid % 2])
+    elif boot != "none":
         kw["bootstrap_ci"] = True
         kw["bootstrap_config"] = BootstrapConfig(
             nb_samples=5, bootstrap_method=method,
@@ -167,6 +183,14 @@ def run(ctx: core.Ctx):
         for v in range(2):
             evs.append(event(fr, ids, cid, int(rnd.randint(48)), ctx.seed))
         ctx.nontrivial.add(json.dumps(fr))
+    # large frames: >= 100 rows of either label, default sampling method
+    for k in range(3 if ctx.tier == "quick" else 12):
+        n = 260 + 20 * k
+        fr = [[[["x"], ["y"]][int(rnd.randint(2))], [["m"], ["f"]][int(rnd.randint(2))], int(i % 2),
+               int(min(4, max(0, rnd.randint(0, 4) + (i % 2))))] for i in range(n)]
+        cid = len(cases)
+        cases.append(fr)
+        evs.append(event(fr, ids, cid, int(rnd.randint(48)), ctx.seed, big=True))
     ctx.sample(evs[len(evs) // 2])
     ctx.judge("Trace_C18", evs, cases=cases, batch=1200, env_extra={"TABLES_FILE": str(tables)})
     ctx.rule = ("frames of the bounded model (group values with/without '_', 1-2 group columns) and random "
